@@ -286,3 +286,6 @@ func TempFile(content string) string {
 	}
 	return f.Name()
 }
+
+// LockModel has no native twin (real mutexes, real scheduler).
+func LockModel(on bool) {}
